@@ -252,6 +252,64 @@ def sequence_grammar(rng, derive=True):
     return items
 
 
+def wave_grammar(rng, derive=True):
+    """A dependency chain A1 -> A2 -> .. -> Ak whose far end is `Ak { Nil | More(Aj $Y) }`: nullability
+    has to travel the whole chain before Y can enter FIRST(Ak), and Y then has to travel the chain again.
+    With few other nonterminals the FIRST/nullable fixpoint needs up to 2k-1 productive passes, more than
+    there are nonterminals (or rules); the chain is declared forwards, backwards or shuffled so that this
+    holds whatever order a pass visits the rules in.  Some links carry a second alternative that starts
+    with its own terminal."""
+    k = rng.randint(4, 9)
+    chain = [f"A{i}" for i in range(1, k + 1)]
+    ts = ["Y", "B", "Z"] + [f"T{i}" for i in range(1, k + 1)]
+    used_ts = {"Y"}
+    attrs = ["#[derive(Debug)]"] if derive else []
+
+    def fs(syms):
+        if not syms:
+            return {"kind": "empty"}
+        return {"kind": "tuple", "fields": [{"used": rng.random() < 0.8, "sym": x} for x in syms]}
+
+    decls = []
+    # FIRST(A1) is consulted only where A1 follows a nonterminal: `S(Head A1)` makes the reduce lookaheads
+    # of Head exactly FIRST(A1 ..)
+    shape = rng.choice(["nhead", "nhead", "nhead", "nhead-tail", "head", "tail"])
+    top = []
+    if shape.startswith("nhead"):
+        top.append(sym_n("Head")); used_ts.add("B")
+        if rng.random() < 0.6:
+            decls.append({"kind": "struct", "attrs": list(attrs), "name": "Head", "fieldset": fs([sym_t("B")])})
+        else:
+            decls.append({"kind": "enum", "attrs": list(attrs), "name": "Head", "variants": [
+                {"name": "None", "fieldset": {"kind": "empty"}}, {"name": "Some", "fieldset": fs([sym_t("B")])}]})
+    if shape == "head":
+        top.append(sym_t("B")); used_ts.add("B")
+    top.append(sym_n("A1" if rng.random() < 0.75 else rng.choice(chain)))
+    if shape.endswith("tail"):
+        top.append(sym_t("Z")); used_ts.add("Z")
+    decls.insert(0, {"kind": "struct", "attrs": list(attrs), "name": "S", "fieldset": fs(top)})
+    for i, a in enumerate(chain[:-1]):
+        link = [sym_n(chain[i + 1])]
+        if rng.random() < 0.25:
+            t = f"T{i + 1}"; used_ts.add(t)
+            decls.append({"kind": "enum", "attrs": list(attrs), "name": a, "variants": [
+                {"name": "Link", "fieldset": fs(link)}, {"name": "Alt", "fieldset": fs([sym_t(t)])}]})
+        else:
+            decls.append({"kind": "struct", "attrs": list(attrs), "name": a, "fieldset": fs(link)})
+    j = 1 if rng.random() < 0.7 else rng.randint(1, k)
+    decls.append({"kind": "enum", "attrs": list(attrs), "name": chain[-1], "variants": [
+        {"name": "Nil", "fieldset": {"kind": "empty"}},
+        {"name": "More", "fieldset": fs([sym_n(f"A{j}"), sym_t("Y")])}]})
+    order = rng.choice(["forward", "backward", "shuffled"])
+    if order == "backward":
+        decls.reverse()
+    elif order == "shuffled":
+        rng.shuffle(decls)
+    items = [{"kind": "start", "name": "S"}] + decls
+    items.append({"kind": "terminal", "attrs": list(attrs), "name": "Tok", "variants": [{"name": t, "type": "usize"} for t in ts if t in used_ts]})
+    return items
+
+
 # ---- hand-written families that separate the grammar classes -------------------------------
 
 def _mk(start, structs_enums, terminals, derive=True):
